@@ -147,6 +147,79 @@ func genChain(r *gen.Rand, cfg *types.Chain33Config, nBlocks int) [][]*types.Tra
 	return chain
 }
 
+// genBadBlocks: blocks that every node must REJECT as a peer block: one transaction carries a flipped signature byte,
+// no signature at all, or somebody else's public key - at the first / middle / last position, as a single transaction
+// or as a group member.
+func genBadBlocks(r *gen.Rand, cfg *types.Chain33Config) ([][]*types.Transaction, []string) {
+	var accts []*acct
+	for _, p := range util.TestPrivkeyList {
+		accts = append(accts, &acct{priv: p, addr: address.PubKeyToAddr(address.DefaultID, p.PubKey().Bytes())})
+	}
+	mk := func() *types.Transaction {
+		from := accts[r.Intn(len(accts))]
+		tx := &types.Transaction{Execer: []byte("none"), Payload: r.Bytes(6), To: address.ExecAddress("none"), Fee: 1000000, Nonce: int64(r.U64() >> 1), ChainID: cfg.GetChainID()}
+		tx.Sign(types.SECP256K1, from.priv)
+		return tx
+	}
+	corrupt := func(tx *types.Transaction, kind int) {
+		switch kind {
+		case 0:
+			tx.Signature.Signature[7] ^= 0x20
+		case 1:
+			tx.Signature = nil
+		case 2:
+			tx.Signature.Pubkey = accts[5].priv.PubKey().Bytes()
+			if string(tx.Signature.Pubkey) == string(accts[0].priv.PubKey().Bytes()) {
+				tx.Signature.Pubkey = accts[4].priv.PubKey().Bytes()
+			}
+		}
+	}
+	var blocks [][]*types.Transaction
+	var names []string
+	for kind := 0; kind < 3; kind++ {
+		for _, pos := range []string{"first", "middle", "last"} {
+			for _, grp := range []bool{false, true} {
+				n := 3 + r.Intn(6)
+				var txs []*types.Transaction
+				for i := 0; i < n; i++ {
+					txs = append(txs, mk())
+				}
+				at := map[string]int{"first": 0, "middle": n / 2, "last": n - 1}[pos]
+				if grp {
+					var g []*types.Transaction
+					for j := 0; j < 3; j++ {
+						g = append(g, &types.Transaction{Execer: []byte("none"), Payload: r.Bytes(5), To: address.ExecAddress("none"), Fee: 1000000, Nonce: int64(r.U64() >> 1), ChainID: cfg.GetChainID()})
+					}
+					gg, err := types.CreateTxGroup(g, cfg.GetMinTxFeeRate())
+					if err != nil {
+						continue
+					}
+					for j := range gg.Txs {
+						_ = gg.SignN(j, types.SECP256K1, accts[0].priv)
+					}
+					corrupt(gg.Txs[1+r.Intn(2)], kind)
+					var nt []*types.Transaction
+					nt = append(nt, txs[:at]...)
+					nt = append(nt, gg.Txs...)
+					nt = append(nt, txs[at:]...)
+					if pos == "last" {
+						nt = append(append([]*types.Transaction{}, txs...), gg.Txs...)
+					}
+					txs = nt
+				} else {
+					if kind == 2 {
+						txs[at].Sign(types.SECP256K1, accts[0].priv)
+					}
+					corrupt(txs[at], kind)
+				}
+				blocks = append(blocks, txs)
+				names = append(names, fmt.Sprintf("%s-%s-%s", []string{"flipped", "nosig", "wrongpub"}[kind], pos, map[bool]string{true: "group", false: "single"}[grp]))
+			}
+		}
+	}
+	return blocks, names
+}
+
 func writeChain(path string, chain [][]*types.Transaction) error {
 	var sb strings.Builder
 	for _, txs := range chain {
@@ -384,6 +457,49 @@ func childMain() {
 	}
 	runChain(mock, cfg, chain, func(s string) { fmt.Fprintln(w, "blk", s) })
 	fmt.Fprintln(w, "blk", fmt.Sprintf("%d db:%s", len(chain)+1, localDBDigest(mock)))
+	if bad, err := readChain(os.Getenv("VERIF_C13_BAD")); err == nil && pluginMode() != "mvcc" {
+		runBad(mock, cfg, bad, w)
+	}
+}
+
+// runBad: blocks with an invalid signature on top of the tip; verdicts of Block.CheckSign and of PreExecBlock as a peer
+// block (errReturn=true) and as the node's own block (errReturn=false, signatures are not looked at).
+func runBad(mock *testnode.Chain33Mock, cfg *types.Chain33Config, bad [][]*types.Transaction, w *bufio.Writer) {
+	parent := mock.GetLastBlock()
+	for i, txs := range bad {
+		mk := func() *types.Block {
+			b := &types.Block{Height: parent.Height + 1, BlockTime: parent.BlockTime + 1, ParentHash: parent.Hash(cfg), Difficulty: parent.Difficulty}
+			for _, tx := range txs {
+				b.Txs = append(b.Txs, tx.Clone())
+			}
+			if cfg.IsFork(b.Height, "ForkRootHash") {
+				b.Txs = types.TransactionSort(b.Txs)
+			}
+			b.TxHash = merkle.CalcMerkleRoot(cfg, b.Height, b.Txs)
+			return b
+		}
+		cs := gen.Guard(func() string { return fmt.Sprint(mk().CheckSign(cfg)) })
+		verdict := func(errReturn bool) string {
+			return gen.Guard(func() string {
+				d, _, err := util.PreExecBlock(mock.GetClient(), parent.StateHash, mk(), errReturn, true, false)
+				if err != nil {
+					return err.Error()
+				}
+				_ = util.ExecKVSetRollback(mock.GetClient(), d.Block.StateHash)
+				var rparts [][]byte
+				for _, rc := range d.Receipts {
+					rparts = append(rparts, types.Encode(rc))
+				}
+				return "accepted/" + digest(rparts...) + "/" + hex.EncodeToString(d.Block.StateHash[:8])
+			})
+		}
+		peer, own := verdict(true), verdict(false)
+		fmt.Fprintf(w, "blk bad%02d cs:%s;peer:%s;own:%s\n", i, cs, strings.ReplaceAll(peer, " ", "_"), strings.ReplaceAll(own, " ", "_"))
+		if cs != "false" || peer != types.ErrSign.Error() {
+			fmt.Fprintf(w, "pred C13|verifyTxsSignature|invalid-signature-accepted | bad block %d: CheckSign=%s peer-block verdict=%s GOMAXPROCS=%d NumCPU=%d\n",
+				i, cs, peer, runtime.GOMAXPROCS(0), runtime.NumCPU())
+		}
+	}
 }
 
 type childCfg struct {
@@ -395,6 +511,7 @@ type childCfg struct {
 }
 
 func runChild(c childCfg, chainFile string) ([]string, string, error) {
+	childPreds = nil
 	self, err := os.Executable()
 	if err != nil {
 		return nil, "", err
@@ -409,7 +526,7 @@ func runChild(c childCfg, chainFile string) ([]string, string, error) {
 	if cmd == nil {
 		cmd = exec.Command(self)
 	}
-	cmd.Env = append(os.Environ(), "VERIF_C13_MODE=child", "VERIF_C13_CHAIN="+chainFile, fmt.Sprintf("GOMAXPROCS=%d", c.maxprocs))
+	cmd.Env = append(os.Environ(), "VERIF_C13_MODE=child", "VERIF_C13_CHAIN="+chainFile, "VERIF_C13_BAD="+chainFile+".bad", fmt.Sprintf("GOMAXPROCS=%d", c.maxprocs))
 	if c.warm {
 		cmd.Env = append(cmd.Env, "VERIF_C13_WARM=1")
 	}
@@ -424,6 +541,8 @@ func runChild(c childCfg, chainFile string) ([]string, string, error) {
 			lines = append(lines, l[4:])
 		} else if strings.HasPrefix(l, "env ") {
 			env = l[4:]
+		} else if strings.HasPrefix(l, "pred ") {
+			childPreds = append(childPreds, l[5:])
 		}
 	}
 	if err != nil {
@@ -431,6 +550,8 @@ func runChild(c childCfg, chainFile string) ([]string, string, error) {
 	}
 	return lines, env, nil
 }
+
+var childPreds []string
 
 func tail(s string, n int) string {
 	if len(s) > n {
@@ -451,6 +572,13 @@ func repeatedExecution() {
 	if err := writeChain(chainFile, chain); err != nil {
 		panic(err)
 	}
+	badBlocks, badNames := genBadBlocks(r, cfg)
+	if err := writeChain(chainFile+".bad", badBlocks); err != nil {
+		panic(err)
+	}
+	defer os.Remove(chainFile + ".bad")
+	out.Stat("bad_blocks", int64(len(badBlocks)))
+	out.Sample("blocks that must be rejected: " + strings.Join(badNames, " "))
 	ntx := 0
 	for _, b := range chain {
 		ntx += len(b)
@@ -459,8 +587,8 @@ func repeatedExecution() {
 	out.Stat("chain_txs", int64(ntx))
 	var cfgs []childCfg
 	if gen.Thorough() {
-		for _, mp := range []int{1, 2, 16} {
-			for _, cp := range []int{1, 4, 16} {
+		for _, mp := range []int{1, 2, 4, 16} {
+			for _, cp := range []int{1, 2, 0} {
 				for _, w := range []bool{false, true} {
 					cfgs = append(cfgs, childCfg{fmt.Sprintf("gomaxprocs%d-cpus%d-warm%v", mp, cp, w), mp, cp, w, ""})
 				}
@@ -474,8 +602,8 @@ func repeatedExecution() {
 			}
 		}
 	} else {
-		cfgs = []childCfg{{"gomaxprocs1-cpus1-fresh", 1, 1, false, ""}, {"gomaxprocs16-cpus16-fresh", 16, 16, false, ""},
-			{"gomaxprocs2-cpus4-warm", 2, 4, true, ""}, {"gomaxprocs16-cpus1-warm", 16, 1, true, ""},
+		cfgs = []childCfg{{"gomaxprocs1-cpus1-fresh", 1, 1, false, ""}, {"gomaxprocs16-cpusall-fresh", 16, 0, false, ""},
+			{"gomaxprocs2-cpus2-warm", 2, 2, true, ""}, {"gomaxprocs4-cpus1-warm", 4, 1, true, ""}, {"gomaxprocs1-cpusall-fresh", 1, 0, false, ""},
 			{"stat-fresh", 2, 0, false, "stat"}, {"stat-warm", 2, 0, true, "stat"},
 			{"mvcc-fresh", 2, 0, false, "mvcc"}, {"mvcc-warm", 2, 0, true, "mvcc"}}
 	}
@@ -490,6 +618,12 @@ func repeatedExecution() {
 			continue
 		}
 		out.Sample(fmt.Sprintf("child %s: %s, %d blocks", c.name, env, len(lines)))
+		for _, p := range childPreds {
+			f := strings.SplitN(p, " | ", 2)
+			if len(f) == 2 {
+				out.Pred(f[0], c.name+": "+f[1])
+			}
+		}
 		for _, l := range lines {
 			f := strings.SplitN(l, " ", 2)
 			if len(f) != 2 {
